@@ -357,6 +357,9 @@ class Blockwise(ArrayExpr):
         return f"{prefix}-{self.deterministic_token}"
 
     def _layer(self):
+        graph = self._graph_if_unlowered()
+        if graph is not None:
+            return graph
         arginds = [(a, i) for (a, i) in toolz.partition(2, self.args)]
 
         numblocks = {}
